@@ -129,6 +129,13 @@ def gen_case(rng, k):
     shape = [int(rng.integers(2 * c + 4, 2 * c + 50)), int(rng.integers(2 * c + 4, 2 * c + 50))]
     if k % 4 == 0:
         shape[1] = shape[0]
+    if kind.startswith("user") and (k // 6) % 2 == 1:
+        # a user template that is larger than the frame along one axis (a template cut out of a big reference image, used on
+        # a strip-shaped frame): every parity combination of template size and frame size
+        ax = int(rng.integers(2))
+        shape[ax] = 2 * c + 4 + int(rng.integers(0, 8))
+        pat["user_shape"] = list(pat["user_shape"])
+        pat["user_shape"][ax] = shape[ax] + int(rng.integers(1, 12))
     p = [int(rng.integers(c + 1, shape[0] - c)), int(rng.integers(c + 1, shape[1] - c))]
     q = {"pattern": pat, "shape": shape, "p": p, "amp": float(rng.uniform(0.5, 8)), "bg": float(rng.integers(0, 200)),
          "seed": int(rng.integers(1 << 30)), "upsample": sorted({int(rng.integers(2, 51)), int(rng.integers(2, 51)), 20})}
